@@ -9,6 +9,7 @@ R6.5  errors carry status and response (HTTPError.__init__, alias __init__ templ
 R6.6  the shared-core predicate holds for every layout [= R11.2]; R6.7 call-local memo keys in the loader cover the status code
 R6.9  the alias module regenerated for the union of all clients' codes imports ClientError and ServerError unconditionally          [= R11.4]
 R6.10 the registry of a core contained in the regenerated package (at any depth) survives the removal of that package              [= R11.5]
+R6.15 a model class never takes the name of an exception alias / ClientError / ServerError the dispatch raises (`raise GoneError(...)` would build the dataclass) [= R20.13]
 R6.14 generated dispatch: no exact-status arm is written after a range-guarded arm (first match wins: the exact arm would be dead)          [= R5.19]
 R6.13 HttpxTransport.request sends once per call (no replay / retry site), so every answer it returns has passed the status guard      [= R4.21]
 R6.12 generated dispatch: an undeclared / range-declared 4xx or 5xx is classified (ClientError / ServerError) before the catch-all raises the base class
@@ -102,6 +103,9 @@ def _transport_var_for(resp: str, L=None):
 
 
 def run(repo: Repo, rep: Report, tier: str) -> None:
+    from rules.c20 import rule_models_spare_endpoint_names
+
+    rule_models_spare_endpoint_names(repo, rep, "R6.15")
     helpers = _helpers(repo)
     consts = _consts(repo)
     rep.count("status_constant_tables", {k: len(v) for k, v in consts.items()})
@@ -206,7 +210,14 @@ def run(repo: Repo, rep: Report, tier: str) -> None:
             risky = [x for a in (list(call.args) + [k.value for k in call.keywords] if call else []) for x in ast.walk(TL.inline(a))
                      if isinstance(x, ast.Call) and not (isinstance(x.func, ast.Name) and x.func.id in ("str", "repr", "int"))
                      and not any(k.arg == "errors" for k in x.keywords)]
-            if risky:
+            # `.text` is not a plain read: httpx decodes the body with the charset the Content-Type names, and that raises for a body the label cannot decode
+            lazy = [x for a in (list(call.args) + [k.value for k in call.keywords] if call else []) for x in ast.walk(TL.inline(a))
+                    if isinstance(x, ast.Attribute) and x.attr == "text" and isinstance(x.value, ast.Name)]
+            if lazy and not risky:
+                rep.violation("R6.5", f"{tr.module.relpath}:HttpxTransport.request raise args are total", f"{tr.fq}|raise-arg-can-fail|decoded-text",
+                              f"`{norm(lazy[0])}` is evaluated while the error is being built: the body is decoded with the charset its Content-Type names, and for a body that label cannot "
+                              "decode (a BOM-less UTF-16 page of a proxy, a mislabelled payload) this raises UnicodeError - the caller loses the HTTPError with status and response", tr.loc(r.ast))
+            elif risky:
                 rep.violation("R6.5", f"{tr.module.relpath}:HttpxTransport.request raise args are total", f"{tr.fq}|raise-arg-can-fail|{norm(risky[0].func)[-30:]}",
                               f"`{norm(risky[0])[:60]}` is evaluated while the error is being built: if it raises (e.g. a body that is not valid UTF-8 / JSON) the "
                               "caller gets that exception instead of an HTTPError carrying status and response", tr.loc(r.ast))
@@ -440,6 +451,20 @@ def _alias_generator_rules(fn: Function, helpers: Dict[str, ast.AST], rep: Repor
     for n in own_nodes(fn.node):
         s = const_str(n) if isinstance(n, ast.Constant) else None
         if s and "super().__init__(" in s:
+            # the call may be written over several template lines: take the following string elements of the same list up to the closing parenthesis
+            from sa.model import parent as _par
+
+            p_ = _par(n)
+            if isinstance(p_, (ast.List, ast.Tuple)) and s.count("(") > s.count(")"):
+                els = p_.elts
+                i0 = next((i for i, e in enumerate(els) if e is n), None)
+                j = (i0 or 0) + 1
+                while i0 is not None and j < len(els) and s.count("(") > s.count(")"):
+                    nxt = const_str(els[j]) if isinstance(els[j], ast.Constant) else None
+                    if nxt is None:
+                        break
+                    s += " " + nxt.strip()
+                    j += 1
             tmpl_ok = "status_code=response.status_code" in s and "response=response" in s
             if tmpl_ok:
                 rep.ok("R6.5", f"{sub0} alias __init__ template", "passes status_code=response.status_code and response=response", fn.loc(n))
